@@ -56,7 +56,7 @@ impl Ctx {
             self.log.compared += 1;
             if replies[i] != self.imps[i] {
                 self.log.disagree(Disagreement {
-                    op: clip(&self.ops[i], 3000),
+                    op: clip(&self.ops[i], 400_000),
                     imp: clip(&self.imps[i], 1500),
                     model: clip(&replies[i], 1500),
                     note: first_diff(&self.imps[i], &replies[i]),
@@ -70,7 +70,7 @@ impl Ctx {
         self.log.oracle_fail(OracleFailure {
             class: class.to_string(),
             what,
-            ops: vec![clip(op, 6000)],
+            ops: vec![clip(op, 400_000)],
             known: String::new(),
         });
     }
@@ -545,13 +545,17 @@ fn run_c04(ctx: &mut Ctx, rng: &mut Rng, resp: &[Vec<u8>], thorough: bool, shard
             1 => 1100,
             _ => 40,
         };
+        // how often a response is padded to a 1 KiB boundary: never (hundreds of short responses inside
+        // one read), rarely, often
+        let pad_den = *rng.pick(&[0u64, 0, 40, 6]);
+        let short_only = rng.chance(1, 3);
         for k in 0..frames {
             if i % 3 == 2 && k % 13 == 5 {
                 let len = *rng.pick(&[4096usize, 16384, 65536, 100_000]);
                 s.extend_from_slice(format!("* {} FETCH (BODY[] {{{}}}\r\n", k + 1, len).as_bytes());
                 s.extend((0..len).map(|j| b'a' + (j % 26) as u8));
                 s.extend_from_slice(b")\r\n");
-            } else if rng.chance(1, 6) {
+            } else if pad_den > 0 && rng.chance(1, pad_den) {
                 // pad the next response so that it ends exactly at a multiple of 1024
                 let base = format!("* {} EXISTS\r\n", k + 1);
                 let target = ((s.len() + base.len() + 20) / 1024 + 1) * 1024;
@@ -562,7 +566,7 @@ fn run_c04(ctx: &mut Ctx, rng: &mut Rng, resp: &[Vec<u8>], thorough: bool, shard
                 s.extend_from_slice(base.as_bytes());
             } else {
                 let e: &Vec<u8> = rng.pick(resp);
-                if e.len() < 120 {
+                if e.len() < 120 && !short_only {
                     s.extend_from_slice(e);
                 } else {
                     s.extend_from_slice(format!("* {} EXISTS\r\n", k + 1).as_bytes());
